@@ -379,6 +379,14 @@ def runScan (interval script : String) : String :=
   let (r, s) := Ubx.Tty.scan env 0 interval.toNat!
   s!"{r} t={s.now} reads={s.j}"
 
+/-- `scanseq|<bytes the request-loop parser saw before>|<interval>~<script>/…`: `scan()` uses parsers of its own, so the
+    scans of a sequence are independent of each other and of the request loop's parser -/
+def runScanSeq (scans : String) : String :=
+  " ".intercalate ((scans.splitOn "/").map fun sc =>
+    match sc.splitOn "~" with
+    | [i, s] => ((runScan i s).replace " " ",")
+    | _ => "bad-scan")
+
 instance : Inhabited Ubx.Gpsd.Json := ⟨.null⟩
 
 /-- tiny JSON value syntax for the driver: n | t | f | 0 | s<hex> | a(<v>;<v>…) | o(<hexkey>=<v>;…) — parsed by a
@@ -408,12 +416,12 @@ partial def parseJ (ts : List String) : Ubx.Gpsd.Json × List String :=
   | t :: r => if t.startsWith "s" then (.str (String.mk ((parseHex (String.mk (t.toList.drop 1))).map Char.ofNat)), r) else (.null, r)
   | [] => (.null, [])
 
-/-- `gpsd|<requested hex or ->|<chunk>/<chunk>…` chunk: `U` (undecodable) or lines `;`-separated: `X` notJson, `D` tooDeep,
+/-- `gpsd|<requested hex or ->|<chunk>/<chunk>…` chunk: `U` (undecodable) or lines `;`-separated: `X` notJson (`B`, `b`: a number of more than 4300 digits, which `json.loads` refuses), `D` tooDeep,
     or a JSON value as space-separated tokens -/
 def runGpsd (req chunks : String) : String :=
   let name : Option String := if req == "-" then none else some (String.mk ((parseHex req).map Char.ofNat))
   let parseLineTok (l : String) : Ubx.Gpsd.Line :=
-    if l == "X" then .notJson else if l == "D" then .tooDeep else .value (parseJ (l.splitOn " ")).1
+    if l == "X" || l == "B" || l == "b" then .notJson else if l == "D" then .tooDeep else .value (parseJ (l.splitOn " ")).1
   let step (acc : Except Exc Ubx.Gpsd.State × List String) (c : String) : Except Exc Ubx.Gpsd.State × List String :=
     match acc.1 with
     | .error _ => acc
@@ -458,6 +466,10 @@ def runCkM (a b : String) : String :=
   let c : Ck := ⟨a.toNat!, b.toNat!⟩
   let hits := (List.range 256).flatMap fun x => ((List.range 256).filter fun y => c.matches x y).map fun y => s!"{x}:{y}"
   ",".intercalate hits ++ s!" reset={c.reset.value.1}:{c.reset.value.2}"
+/-- `ckgen|len|seed|mode`: value after a generated sequence, then `reset()` and three more bytes compared with a new object -/
+def runCkGen (len seed mode : String) : String :=
+  let c := Ck.zero.addAll (lcgPayload len.toNat! seed.toNat! mode.toNat!)
+  s!"{c.value.1},{c.value.2} {c.reset.addAll [1, 2, 3] == Ck.zero.addAll [1, 2, 3]}"
 def runCkSeq (h : String) : String :=
   let c := ((Ck.zero.add 0x55).reset).addAll (parseHex h)
   s!"{c.value.1},{c.value.2} {c.matches c.value.1 c.value.2}"
@@ -469,7 +481,7 @@ def runTty (f : List String) : String :=
       let data := parseHex h
       let written := if w == "-" then data.length else w.toNat!
       s!"{Ubx.Tty.transmit written data} wrote=exact"
-  | ["recover", baud] =>
+  | ["recover", _ctor, baud] =>
       let p := Ubx.Tty.recover { isOpen := true, baud := baud.toNat! }
       s!"open={p.isOpen} baud={p.baud} log={",".intercalate (p.log.map fun e => toString e.2)}"
   | _ => "bad-line"
@@ -512,7 +524,9 @@ def handle (line : String) : String :=
   | ["ckrow", a] => runCkRow a
   | ["ckm", a, b] => runCkM a b
   | ["ckseq", h] => runCkSeq h
+  | ["ckgen", l, sd, m] => runCkGen l sd m
   | ["scan", i, sc] => runScan i sc
+  | ["scanseq", _, scans] => runScanSeq scans
   | ["gpsd", r, c] => runGpsd r c
   | "tty" :: rest => runTty rest
   | ["gpsdtx", d, x, r] => runGpsdTx d x r
